@@ -359,3 +359,102 @@ func traceStats(st map[string]int, c string) {
 		st["trace.inputs.0"]++
 	}
 }
+
+// ---- sensitivity of the trace check: real logs damaged in ways no run can produce must be rejected
+
+// mutateTrace returns a damaged copy of evs (nil when the log has no event the mutation needs).
+func mutateTrace(r *Rand, kind int, evs []extractor.VerifEvent) []extractor.VerifEvent {
+	idx := func(pred func(e extractor.VerifEvent) bool) []int {
+		var out []int
+		for i, e := range evs {
+			if pred(e) {
+				out = append(out, i)
+			}
+		}
+		return out
+	}
+	isLine := func(e extractor.VerifEvent) bool { return strings.HasPrefix(e.Ev, "line.") }
+	cp := append([]extractor.VerifEvent(nil), evs...)
+	switch kind {
+	case 1: // a line is logged with another class than the one the code computes for its text
+		c := idx(isLine)
+		if len(c) == 0 {
+			return nil
+		}
+		i := Pick(r, c)
+		cp[i].Ev = map[string]string{"line.m": "line.u", "line.i": "line.m", "line.u": "line.i"}[cp[i].Ev]
+	case 2: // a worker processes a batch it never received
+		c := idx(func(e extractor.VerifEvent) bool { return e.Ev == "w.recv" })
+		if len(c) == 0 {
+			return nil
+		}
+		i := Pick(r, c)
+		cp = append(cp[:i], cp[i+1:]...)
+	case 3: // a line is processed twice
+		c := idx(isLine)
+		if len(c) == 0 {
+			return nil
+		}
+		i := Pick(r, c)
+		cp = append(cp[:i+1], append([]extractor.VerifEvent{cp[i]}, cp[i+1:]...)...)
+	case 4: // the batch channel is never closed, yet the workers exit
+		c := idx(func(e extractor.VerifEvent) bool { return e.Ev == "c.close" })
+		if len(c) == 0 {
+			return nil
+		}
+		cp = append(cp[:c[0]], cp[c[0]+1:]...)
+	case 5: // the consumer sees the end of the stream before anything else happened
+		c := idx(func(e extractor.VerifEvent) bool { return e.Ev == "c.done" })
+		if len(c) == 0 || len(cp) < 3 {
+			return nil
+		}
+		e := cp[c[0]]
+		cp = append(cp[:c[0]], cp[c[0]+1:]...)
+		cp = append([]extractor.VerifEvent{e}, cp...)
+	case 6: // a worker classifies the first line of a batch before receiving the batch
+		var c []int
+		for i, e := range evs {
+			if e.Ev != "w.recv" {
+				continue
+			}
+			for j := i + 1; j < len(evs); j++ {
+				if evs[j].G == e.G {
+					if isLine(evs[j]) {
+						c = append(c, i)
+					}
+					break
+				}
+			}
+		}
+		if len(c) == 0 {
+			return nil
+		}
+		i := Pick(r, c)
+		for j := i + 1; j < len(cp); j++ {
+			if cp[j].G == cp[i].G {
+				cp[i], cp[j] = cp[j], cp[i]
+				break
+			}
+		}
+	}
+	return cp
+}
+
+func pipeMutGen(r *Rand, tier string) []string {
+	n := 18
+	if tier == "thorough" {
+		n = 240
+	}
+	var out []string
+	for i := 0; i < n; i++ {
+		c := genTraceCfg(r, false)
+		res := runPipeTraced(c)
+		kind := 1 + i%6
+		m := mutateTrace(r, kind, res.evs)
+		if m == nil {
+			continue
+		}
+		out = append(out, fmt.Sprintf("pmut%d %s/%s/%s/%s", kind, c.cfgString(), encodeInputs(c.inputs), res.summary, encodeTrace(m, srcIndex)))
+	}
+	return out
+}
